@@ -98,6 +98,15 @@ class BodyCands(Family):
                 cands.append(X.Pg(tuple(X.add(v, X.scal(F(1, 64), w)) for v in cyc)))     # just outside
                 cands.append(X.Pg(tuple(X.add(A.mid(v, fc), X.scal(F(1, 2), w)) for v in cyc)))
                 cands.append(X.Pg(tuple(X.add(fc, X.scal(F(3, 2), X.sub(v, fc))) for v in cyc)))  # enlarged, pokes out
+                # straddling polygons: some vertices inside, one far outside, listed in every rotation
+                # (the constructor keeps the first listed vertex first)
+                inner = [A.mid(v, c) for v in cyc]
+                ic = A.mid(fc, c)
+                for k in range(min(len(inner), 3)):
+                    strad = list(inner)
+                    strad[k] = X.add(inner[k], X.scal(3, X.sub(inner[k], ic)))   # pushed outwards inside the polygon's own plane
+                    for r in range(len(strad)):
+                        cands.append(X.Pg(tuple(strad[r:] + strad[:r])))
             for f in base[:: (3 if tier == 'quick' else 1)]:
                 for nrm in plane_normals(K)[:: (2 if tier == 'quick' else 1)]:
                     e, _ = X.inter(X.Pl(f, nrm), K)
@@ -144,6 +153,14 @@ def families(tier):
                           [A.body(b) for b in A.POLYGONS]))
         for b in bodies:
             fams.append(BodyCands(b, pose, tier))
+    # oblique bodies placed so that one vertex (hence >= 3 face planes) sits exactly at the origin
+    for b in (['tetrahedron', 'cut-cube', 'hexagon'] if tier == 'quick' else ['tetrahedron', 'cut-cube', 'hexagon', 'pyramid', 'prism', 'octahedron', 'triangle']):
+        K0 = A.body(b)
+        for vi in range(len(K0[1]) if tier != 'quick' else min(4, len(K0[1]))):
+            for base in ((A.P1,) if tier == 'quick' else (A.P1, A.P2, A.P3)):
+                img = base.point(K0[1][vi])
+                pose = A.Pose('%s@v%d' % (base.name, vi), base.M, base.s, tuple(base.t[i] - img[i] for i in range(3)))
+                fams.append(BodyCands(b, pose, tier))
     return A.with_int_mode(fams, tier)
 
 
